@@ -70,3 +70,16 @@ pub fn c04_zero_data_head() {
     assert!(!d.is_end_stream() && d.head().flag() == 0);
     kani::cover!(true, "end");
 }
+
+/// Builds a received DATA frame directly (payload, END_STREAM, optional pad length as
+/// recorded by `Data::load`).
+pub(crate) fn mk_data(id: StreamId, payload: Bytes, eos: bool, pad_len: Option<u8>) -> Data<Bytes> {
+    let mut flags = DataFlags::default();
+    if eos {
+        flags.set_end_stream();
+    }
+    if pad_len.is_some() {
+        flags.0 |= PADDED;
+    }
+    Data { stream_id: id, data: payload, flags, pad_len }
+}
